@@ -104,7 +104,9 @@ def graph_oracle(ctx, case, out, master):
         t, zone = recs[key][0]
         kind = key.rsplit("/", 1)[-1]
         types = [g.type for g in gs.graphs]
-        want_types = {TargetType.DI.value: [GT.CC.value, GT.SCC.value, GT.BCC.value, GT.GCC.value, GT.GCC_HP.value],
+        opts = case["problem"].get("options") or {}
+        balanced = opts.get("DO_BALANCED_CC", True) or opts.get("DO_AREA_TARGETING", False)
+        want_types = {TargetType.DI.value: [GT.CC.value, GT.SCC.value] + ([GT.BCC.value] if balanced else []) + [GT.GCC.value, GT.GCC_HP.value],
                       TargetType.TS.value: [GT.TSP.value, GT.SUGCC.value], TargetType.TZ.value: []}.get(kind)
         if want_types is not None and types != want_types:
             fails.append(("documented_graph_types", f"{key}: graph types {types}, documented {want_types}", None))
